@@ -11,8 +11,9 @@ from vt.smodel import (BUILTIN_SCALARS, NODEF, Arg, DirectiveDef, esc_string, na
 TS_LOCATIONS = ["SCHEMA", "SCALAR", "OBJECT", "FIELD_DEFINITION", "ARGUMENT_DEFINITION", "INTERFACE", "UNION", "ENUM",
                 "ENUM_VALUE", "INPUT_OBJECT", "INPUT_FIELD_DEFINITION"]
 EX_LOCATIONS = ["QUERY", "MUTATION", "SUBSCRIPTION", "FIELD", "FRAGMENT_DEFINITION", "FRAGMENT_SPREAD", "INLINE_FRAGMENT"]
-DESCS = ["plain", "with \"quotes\"", "back\\slash", "multi\nline", "é unicode 日本", "", "  spaced  ", "#hash", "tab\there"]
-REASONS = ["use other", "a \"quoted\" reason", "", "é"]
+DESCS = ["plain", "with \"quotes\"", "back\\slash", "multi\nline", "é unicode 日本", "", "  spaced  ", "#hash", "tab\there",
+         "C:\\new\\table", "regex \\b", "ends with \\"]
+REASONS = ["use other", "a \"quoted\" reason", "", "é", "use \\newField"]
 BUILTIN_DIRECTIVES = {
     "deprecated": (["FIELD_DEFINITION", "ENUM_VALUE"], [("reason", "String", ("string", "No longer supported"))]),
     "nonIntrospectable": (["FIELD_DEFINITION", "SCHEMA"], []),
